@@ -110,13 +110,32 @@ def oracle(c, impl):
                     return (f"obs#{sn['after_obs']}: segment {seg} differs from what it held when the compaction round published it "
                             f"(snapshot {j}; files {sorted(set(files) ^ set(later_obs[seg]))[:4]} ...)")
             published = {}
+    # which directories the trace says were PUBLISHED in the first process lifetime: the k-th flush (token fb) writes
+    # level-0 segment k and publishes it at its fp token (a flush that fails after writing its files - seen once in the
+    # thorough tier when a flush raced a compaction hand-over - leaves a complete directory that was never published);
+    # a compaction output is published at the cl token after its cw token
+    toks = (impl.get("line") or "").split()
+    first_life = toks[:toks.index("K")] if "K" in toks else toks
+    published_ids, cur, cur_out = set(), None, None
+    nflush = 0
+    for t in first_life:
+        if t == "fb":
+            cur = nflush; nflush += 1
+        elif t == "fp" and cur is not None:
+            published_ids.add(cur)
+        elif t.startswith("cw") and ":" in t:
+            cur_out = int(t[2:].split(":")[0])
+        elif t == "cl" and cur_out is not None:
+            published_ids.add(cur_out)
+    obs_in_first_life = first_life.count("O")
     for n, o in enumerate(impl["obs"]):
-        # (3) crash-free, fault-free histories: a complete segment directory that no compaction took as an input is
-        # named by segments.idx (a published segment does not drop out of the index while its files stay behind)
-        if "index" in o and not o.get("parked_at") and "BLOCKSEG" not in ops and "X" not in ops and "P" not in ops and "HIDE" not in ops and "FAILIDX" not in ops:
+        # (3) crash-free, fault-free histories: a complete segment directory that was published and that no compaction
+        # took as an input is named by segments.idx (a published segment does not drop out of the index while its
+        # files stay behind)
+        if n < obs_in_first_life and "index" in o and not o.get("parked_at") and "BLOCKSEG" not in ops and "X" not in ops and "P" not in ops and "HIDE" not in ops and "FAILIDX" not in ops:
             listed = {e[0] for e in o["index"]}
             for seg, files in o["hashes"].items():
-                if files and int(seg) not in listed and int(seg) not in inputs and any(f.endswith(".zones") for f in files):
+                if files and int(seg) in published_ids and int(seg) not in listed and int(seg) not in inputs and any(f.endswith(".zones") for f in files):
                     return (f"obs#{n}: segment {seg} is complete on disk and was not an input of any compaction batch, "
                             f"but segments.idx does not name it (index {sorted(listed)}): a published segment dropped out of the index")
         for seg, files in o["hashes"].items():
